@@ -112,7 +112,7 @@ SPEC = dict(
         "hand-written model lean/Qx/Model/C14Stun.lean (encode, decode loop with its bounds check, hmacCode, QDataStream read-past-end semantics), tied to "
         "src/base/QXmppStun.cpp and QXmppUtils.cpp by the correspondence run",
         "Qt behaviour taken as given and validated empirically only: QDataStream big-endian and read-past-end-yields-zero, "
-        "QString::fromUtf8(QByteArray) (cut at NUL, BOM dropped, U+FFFD), QByteArray(negative size) is empty, QCryptographicHash SHA-1 "
+        "QString::fromUtf8(data, size) (BOM dropped, U+FFFD), QByteArray(negative size) is empty, QCryptographicHash SHA-1 "
         "(= Lean Qx.Crypto.sha1, cross-checked against python hashlib every run)",
     ],
     assumptions=[
@@ -130,7 +130,7 @@ SPEC = dict(
     ],
     level_text="Theorems for every message encode accepts (it refuses exactly those exceeding the 16-bit length field) over all 23 "
                "attributes, every key length and fingerprint on/off: decode(encode m) = view m (strings through QString::fromUtf8, "
-               "identity for NUL/BOM-free UTF-8); MI = the code's HMAC of the protected bytes, proved equal to RFC 2104 HMAC for keys of "
+               "identity for well-formed UTF-8 without a leading BOM); MI = the code's HMAC of the protected bytes, proved equal to RFC 2104 HMAC for keys of "
                "every length; FP = bitwise CRC-32 ^ 0x5354554e with the table regenerated from the source and proved equal to the "
                "bitwise definition; for every packet: accepted with MI under a key => HMAC verified, accepted at FP => CRC verified, "
                "accepted => every attribute header and value inside the packet. Single-bit corruption, by case analysis over every bit "
@@ -140,9 +140,9 @@ SPEC = dict(
                "MESSAGE-INTEGRITY yields a rejection or the same message (no hypothesis); nothing is assumed about CRC-32. Recorded "
                "defects with theorems and replays: plain decode() does not require MESSAGE-INTEGRITY under a key, so a flipped length bit "
                "that makes an attribute swallow exactly MI(+FP) is accepted by it (requiring it inside decode would reject TURN Data "
-               "indications); U+0000 in a string is cut (one-line fix offered), a leading U+FEFF is dropped by Qt. Repaired in /repo, "
-               "witnesses replayed first on every run: HMAC for keys > 64 bytes, other key accepted, attribute length beyond the buffer, "
-               "oversized message encoded with wrapped lengths, reservation token padded with uninitialised memory.",
+               "indications); a leading U+FEFF in a string is dropped by every Qt 5 fromUtf8. Repaired in /repo, witnesses replayed "
+               "first on every run: HMAC for keys > 64 bytes, other key accepted, attribute length beyond the buffer, oversized message "
+               "encoded with wrapped lengths, reservation token padded with uninitialised memory, string cut at an embedded U+0000.",
     level_note="Proved about the hand-written model over translator-generated table/constants; model-to-code tie is differential "
                "(systematic + seeded random, not exhaustive). 'Never crashes / reads out of bounds on arbitrary bytes' is a runtime "
                "statement: decode is total in Lean, the C++ is run on 1.2e4 (quick) / 1e5 (thorough) arbitrary packets plus ~7e5 / 6e6 "
